@@ -106,7 +106,11 @@ class InsecureHomeKitProtocol(asyncio.Protocol):
         self.transport = transport
 
     def connection_lost(self, exception: Exception) -> None:
-        self.connection._connection_lost(exception)
+        if self.connection.protocol in (self, None):
+            # Only the protocol currently in use (or none, if the connection
+            # dropped it itself) may report the loss; a stale protocol from
+            # an abandoned connection must not tear down the current one.
+            self.connection._connection_lost(exception)
         self._cancel_pending_requests()
 
     def _handle_timeout(self, fut: asyncio.Future[Any]) -> None:
